@@ -2,6 +2,7 @@ import LettreVerif.Proofs.HeaderEnc
 import LettreVerif.Spec.Rfc2047Dec
 import LettreVerif.Proofs.C12Roundtrip
 import LettreVerif.Proofs.Wire
+import LettreVerif.Proofs.Utf8Runs
 /-!
 # C12 — Header text survives encoding: a conforming reader recovers the exact string
 
@@ -88,6 +89,14 @@ example : ContRunsLe3 (str "né  né =?x?= a ") ∧
         simp [List.getD_eq_getElem?_getD, List.getElem?_eq_none (by omega : (str "né  né =?x?= a ").length ≤ i)]
       rw [this] at hi; exact absurd hi.1 (by decide)
 
+/-- **Header text survives encoding — every Rust string, no hypothesis.** A Rust `str` is the UTF-8 encoding of a
+    sequence of scalar values (`List Char`); its octets never have four continuation octets in a row
+    (`Proofs/Utf8Runs.lean`, over Lean's own UTF-8 encoder), so the round trip holds for every string and every header name
+    length: the reader recovers exactly the octets of the string. -/
+theorem unstructured_roundtrip_every_string (n : Nat) (text : List Char) :
+    Rfc2047Dec.decode (encodeValue opts n (encodeUtf8 text)) = encodeUtf8 text :=
+  unstructured_roundtrip n _ (Utf8Runs.contRuns_str text)
+
 /-! ## structured fields: display names and file names -/
 
 open LV.MailboxEnc LV.StructuredDec in
@@ -98,6 +107,12 @@ open LV.MailboxEnc LV.StructuredDec in
 theorem display_name_roundtrip (w : W) (hi : Inv w) (name : Bytes) (hu : ContRunsLe3 name) :
     ∃ R, (quotedStringEncode w name).view = w.view ++ R ∧ phraseDecode R = some name :=
   name_wire w hi name hu
+
+open LV.MailboxEnc LV.StructuredDec in
+/-- the same for every Rust string as the name, with no hypothesis on it -/
+theorem display_name_roundtrip_every_string (w : W) (hi : Inv w) (name : List Char) :
+    ∃ R, (quotedStringEncode w (encodeUtf8 name)).view = w.view ++ R ∧ phraseDecode R = some (encodeUtf8 name) :=
+  display_name_roundtrip w hi _ (Utf8Runs.contRuns_str name)
 
 open LV.MailboxEnc in
 /-- **A mailbox header on the wire, read back.** For every list of mailboxes (any names, printable-ASCII addresses):
